@@ -23,6 +23,9 @@ def main():
         rc, out = sh(f"git -C /repo worktree add -q --detach {wt} HEAD")
         rc, out = sh(f"git apply {diff}", cwd=wt)
         if rc != 0:
+            rc, out = sh(f"git apply -3 {diff}", cwd=wt)
+            res["applied_with_3way"] = True
+        if rc != 0 or "<<<<<<<" in sh("git diff", cwd=wt)[1]:
             res["confirm"] = "diff does not apply: " + out[:300]; print(json.dumps(res)); return 2
         touched = sh("git diff --name-only", cwd=wt)[1].split()
         mods = {"."}
@@ -49,7 +52,7 @@ def main():
                     shutil.copy(extra, wt)
                 run = f"bash {os.path.basename(d)} {wt}"
                 rcw, ow = sh(run, cwd=wt, timeout=900)
-                sh("git apply -R " + diff, cwd=wt)
+                sh("git checkout -- . ", cwd=wt)
                 rco, oo = sh(run, cwd=wt, timeout=900)
             else:
                 mdir = re.search(r"(?:into|in|Place:)\s+(?:<worktree>/)?([A-Za-z0-9_/\.]+?)/?(?:\s|$|\()", head)
@@ -66,7 +69,8 @@ def main():
                 race = "-race" if " -race" in head else ""
                 run = f"go test -vet=off -count=1 {tags} {race} -run '{pat}' ."
                 rcw, ow = sh(run, cwd=os.path.join(wt, pkgdir), timeout=900)
-                sh("git apply -R " + diff, cwd=wt)
+                sh("git stash -q -- . 2>/dev/null; git checkout -- . ", cwd=wt)
+                shutil.copy(d, os.path.join(wt, pkgdir, name))
                 rco, oo = sh(run, cwd=os.path.join(wt, pkgdir), timeout=900)
             res["demo_with_change"] = "FAIL" if rcw != 0 else "pass"
             res["demo_without_change"] = "pass" if rco == 0 else "FAIL"
@@ -79,6 +83,10 @@ def main():
     # run the check against /repo with the change applied
     rc, out = sh(f"git -C /repo apply {diff}")
     if rc != 0:
+        rc, out = sh(f"git -C /repo apply -3 {diff}")
+        if rc == 0:
+            sh("git -C /repo reset -q")
+    if rc != 0:
         res["check"] = "diff does not apply to /repo: " + out[:200]; print(json.dumps(res, indent=1)); return 2
     try:
         rcc, outc = sh(f"VERIF_TIER={tier} bin/vcheck run {prop} --tier {tier}", cwd="/verif", timeout=3600)
@@ -90,7 +98,8 @@ def main():
     res["signatures"] = sigs[:4]
     res["summary_line"] = [l for l in outc.splitlines() if l.startswith("SUMMARY") or l.startswith("INCONCLUSIVE")][:2]
     if not skip or True:
-        dst = f"/verif/seeded/{prop}-{m}"
+        wave = os.environ.get("SEED_WAVE", "")
+        dst = f"/verif/seeded/{prop}-{wave}{m}"
         os.makedirs(dst, exist_ok=True)
         shutil.copy(diff, os.path.join(dst, "patch.diff"))
         for d in demos: shutil.copy(d, dst)
